@@ -38,6 +38,8 @@ pub fn pad_field(args: &[String]) -> String {
     }
     let ascii_only = args.get(0).map(|s| s == "ascii").unwrap_or(false);
     let mut texts: Vec<&str> = vec!["", "a", "ab", "abc", "abcd", "hello world", "x y z", "0123456789"];
+    // text with embedded colour sequences: only its visible columns count (padding when it fits; truncation is not compared)
+    texts.extend(["\u{1b}[31mabc\u{1b}[0m", "x\u{1b}[1my\u{1b}[0mz"]);
     if !ascii_only {
         texts.extend(["ééééé", "añb", "日本語", "a日b", "\u{1b}[1mbold\u{1b}[0m", "e\u{301}e\u{301}e\u{301}"]);
     }
@@ -46,9 +48,12 @@ pub fn pad_field(args: &[String]) -> String {
         for w in 0..=12usize {
             for al in 0..3u8 {
                 for tr in [false, true] {
+                    if ascii_only && s.contains('\u{1b}') && tr && text_cols(s) > w {
+                        continue;
+                    }
                     tried += 1;
                     if let Some(m) = check(s, w, al, tr) {
-                        return format!("{{\"found\": true, \"clause\": {}, \"tried\": {}, \"input\": {{\"text\": {}, \"width\": {}, \"align\": {}, \"truncate\": {}}}, \"rerun\": \"replay pad_field {} {} {} {}\"}}", crate::js(&m), tried, crate::js(s), w, al, tr, s, w, al, tr);
+                        return format!("{{\"found\": true, \"clause\": {}, \"tried\": {}, \"input\": {{\"text\": {}, \"width\": {}, \"align\": {}, \"truncate\": {}}}, \"rerun\": {}}}", crate::js(&m), tried, crate::js(s), w, al, tr, crate::js(&format!("replay pad_field '{}' {} {} {}", s, w, al, tr)));
                     }
                 }
             }
